@@ -652,6 +652,10 @@ def analyze(cx, fn, args, facts, want_edges=False, init_vals=None):
                     if "stmt" in cx.hooks:
                         cx.hooks["stmt"](cx, fn, bb, s, st)
                     v = rvalue_val(cx, fn, st, s["rv"], bb)
+                    if "stmt_post" in cx.hooks:
+                        v2 = cx.hooks["stmt_post"](cx, fn, bb, s, st, v)
+                        if v2 is not None:
+                            v = v2
                     lhs = s["lhs"]
                     if len(lhs) == 1:
                         if v == UNKNOWN and fn.local_tystr(lhs[0]) in UNSIGNED:
@@ -796,10 +800,17 @@ def rvalue_val(cx, fn, st, rv, bb):
     if k in ("ref", "rawptr"):
         return place_val(cx, st, rv["place"])
     if k == "cast":
-        if rv["kind"] in ("int", "unsize", "transmute", "PtrToPtr") or True:
-            v = op_val(cx, st, rv["op"])
-            # integer widening keeps the value; narrowing is not modelled (usize<->u64 on 64-bit is exact)
-            return v
+        v = op_val(cx, st, rv["op"])
+        if rv["kind"] == "int" and v[0] == "int":
+            # widening keeps the value; a narrowing cast keeps it only when the value provably fits
+            order = {"u8": 8, "u16": 16, "u32": 32, "u64": 64, "usize": 64, "u128": 128, "i8": 7, "i16": 15, "i32": 31, "i64": 63, "isize": 63, "i128": 127}
+            fs_, ts_ = fn.ty(rv["from"])["s"], fn.ty(rv["to"])["s"]
+            if order.get(ts_, 64) < order.get(fs_, 64):
+                lim = Lin.konst((1 << order[ts_]) - 1)
+                if entails(st.facts, lim.sub(v[1])) and entails(st.facts, v[1]):
+                    return v
+                return UNKNOWN
+        return v
     if k == "discr":
         if len(rv["place"]) == 1 or all(e == "*" for e in rv["place"][1:]):
             return ("disc", rv["place"][0])
@@ -909,6 +920,11 @@ def _call_val(cx, fn, bb, t, st, reports):
         if l is None:
             return UNKNOWN
         return V_int(l) if name == "len" else V_bool([l.scale(-1)], [l.plus(-1)])
+    if name == "new" and inst.startswith("core::ops::range::") and len(a) == 2 and a[0][0] == "int" and a[1][0] == "int":
+        return ("rangei", a[0][1], a[1][1])          # RangeInclusive::new(lo, hi)
+    if name == "next" and a and a[0][0] == "rangei":
+        i_ = sym("range_i")
+        return V_opt(V_int(i_), [i_.sub(a[0][1]), a[0][2].sub(i_)], [])
     if name == "next" and a and a[0][0] == "range" and a[0][1] is not None and a[0][2] is not None:
         i_ = sym("range_i")
         return V_opt(V_int(i_), [i_.sub(a[0][1]), a[0][2].sub(i_).plus(-1)], [])
